@@ -189,8 +189,37 @@ class Interp(object):
         b = [r for sg, r in roots if sg < 0][0]
         return self.infer_signs(st, self._abs_poly(st, a) - self._abs_poly(st, b), _nosq=True)
 
+    def clear_denominators(self, st, p):
+        """multiply p by positive symbols so that none of them occurs with a negative exponent; the sign is
+        unchanged and `deltaE / unitMultiplier` shares its sign facts with `deltaE`"""
+        low = {}
+        for m in p.t:
+            for s, e in m:
+                if e < 0 and e < low.get(s, 0):
+                    low[s] = e
+        for s, e in low.items():
+            if self.syminfo.get(s, {}).get('signs', SIGNS) <= frozenset([1]):
+                f = Poly({((s, -e),): 1})
+                p = p * f
+        # strip positive symbols that are a common factor of every term
+        if p.t:
+            common = None
+            for m in p.t:
+                d = dict((s, e) for s, e in m if e > 0)
+                if common is None:
+                    common = d
+                else:
+                    common = dict((s, min(e, d[s])) for s, e in common.items() if s in d)
+                if not common:
+                    break
+            for s, e in (common or {}).items():
+                if self.syminfo.get(s, {}).get('signs', SIGNS) <= frozenset([1]):
+                    p = p * Poly({((s, -e),): 1})
+        return p
+
     def infer_signs(self, st, p, _nosq=False):
         """superset of the possible signs of polynomial p under the path's decisions"""
+        p = self.clear_denominators(st, p)
         r = self._infer_signs(st, p)
         if len(r) > 1 and not _nosq:
             d = self._diff_of_squares(st, p)
@@ -238,6 +267,7 @@ class Interp(object):
             c = p.const_value()
             s = 0 if c == 0 else (1 if c > 0 else -1)
             return [(st, s in want)]
+        p = self.clear_denominators(st, p)
         unit, sgn = p.canon()
         key = ('sgn', unit.key())
         cur = self.infer_signs(st, p)              # signs of p
@@ -362,10 +392,13 @@ class Interp(object):
                 out.extend(cur)
             return out
         if isinstance(s, ast.AugAssign):
-            load = ast.BinOp(left=_as_load(s.target), op=s.op, right=s.value)
-            ast.copy_location(load, s)
-            ast.fix_missing_locations(load)
-            load._aug_inplace = True
+            load = getattr(s, '_load', None)
+            if load is None:
+                load = ast.BinOp(left=_as_load(s.target), op=s.op, right=s.value)
+                ast.copy_location(load, s)
+                ast.fix_missing_locations(load)
+                load._aug_inplace = True
+                s._load = load
             out = []
             for (s2, v, e2) in self._multi(self.eval(st, env, load, frame), env):
                 if isinstance(v, Raised):
@@ -561,11 +594,19 @@ class Interp(object):
         return truth_expr(self, st, env, e, frame)
 
 
+_GEN = {}
+
+
 def _is_generator(fn):
-    for n in ast.walk(fn):
-        if isinstance(n, (ast.Yield, ast.YieldFrom)):
-            return True
-    return False
+    r = _GEN.get(id(fn))
+    if r is None:
+        r = False
+        for n in ast.walk(fn):
+            if isinstance(n, (ast.Yield, ast.YieldFrom)):
+                r = True
+                break
+        _GEN[id(fn)] = r
+    return r
 
 
 def _as_load(t):
